@@ -629,6 +629,9 @@ func clone(b []byte) []byte { return append([]byte(nil), b...) }
 // mutate produces one mutated WAL from base (and possibly a donor WAL of the same page size).
 func mutate(r *hx.Rand, base, donor []byte, ps int) Mut {
 	w := clone(base)
+	if len(w) < 32 { // nothing but a torn header left: only cut it further
+		return Mut{Name: "trunc-hdr", W: w[:r.Intn(len(w)+1)]}
+	}
 	fs := ps + 24
 	nf := 0
 	if len(w) >= 32 {
@@ -1287,7 +1290,7 @@ func main() {
 	rnd := hx.NewRand(o.Seed)
 	nSets, nMut, sqliteEvery := 2, 180, 2
 	if o.Tier == "thorough" {
-		nSets, nMut, sqliteEvery = 6, 1200, 1
+		nSets, nMut, sqliteEvery = 4, 800, 1
 	}
 
 	// bases
